@@ -13,7 +13,15 @@
 // `any_cast<T>(&a)` (p), `any_cast<T>(&const a)` (cp), `any_cast<const T&>(const a)` (r): the value
 // code, or x for nullptr / bad_any_cast.  Then every container is destroyed and the final counters
 // and the net number of `operator new` allocations of the whole sequence (`leak=`) are printed.
-// Operation tokens: see lean/BFL/Driver/AnyBox.lean.
+// Operation tokens: see lean/BFL/Driver/AnyBox.lean (`!op`: the throwing probe is armed; `~op` / `~~op`: the first /
+// second call of `operator new` that any.h makes inside the operation throws std::bad_alloc).
+//
+// The mode token may carry a probe family member: `F:<id>` / `L:<id>` (e.g. `L:24x`).  The held types behind the
+// tags p and t are then SP<N,NX,A,false> and SP<N,NX,A,true>: instance-counted probes of exactly N bytes (N = 1..64 at
+// the boundaries of the holder size classes), alignment A, whose move constructor is noexcept (id suffix n) or not
+// (suffix x), the t variant with a copy constructor that throws on demand.  any.h does not look at the size, the
+// alignment or the exception specification of the held type, so the Lean model is the same for every member; an
+// implementation that does (small-object buffer, trait-dependent relocation) is exercised on every class.
 #include "common.hpp"
 #include <BayesFilters/any.h>
 #include <BayesFilters/Data.h>
@@ -23,8 +31,15 @@
 #include <typeinfo>
 
 // ---- every `new` / `delete` of the process is counted (holders, string buffers, the pool objects)
+// While the harness is inside an expression of any.h (`g_window`) and a fuse is set, the (fuse+1)-th call of
+// `operator new` throws std::bad_alloc (tokens `~op`, `~~op`).
 static long g_live_allocs = 0;
-void* operator new(std::size_t n) { void* p = std::malloc(n ? n : 1); if (!p) throw std::bad_alloc(); ++g_live_allocs; return p; }
+static long g_new_fuse = -1;
+static bool g_window = false;
+void* operator new(std::size_t n) {
+    if (g_window && g_new_fuse >= 0) { if (g_new_fuse == 0) { g_new_fuse = -1; throw std::bad_alloc(); } --g_new_fuse; }
+    void* p = std::malloc(n ? n : 1); if (!p) throw std::bad_alloc(); ++g_live_allocs; return p;
+}
 void operator delete(void* p) noexcept { if (p) { --g_live_allocs; std::free(p); } }
 
 using bfl::any::any;
@@ -65,6 +80,48 @@ struct Thrower {
     ~Thrower() { --Probe::live; }
 };
 long Thrower::fuse = -1;
+
+// ---- family of sized probes: exactly N bytes (alignment A), move constructor noexcept(NX), copy constructor
+// throwing on demand (THROW).  The object stores a one-byte handle into a per-sequence table of codes and a
+// byte pattern derived from the handle (a partial copy shows as `?pat`); handle 0 = moved-from (code -1).
+static long g_codes[256];
+static int g_ncodes = 2;                 // 0: moved-from, 1: default-constructed (-2)
+static void reset_codes() { g_ncodes = 2; g_codes[0] = -1; g_codes[1] = -2; }
+static unsigned char new_handle(long c) {
+    if (c == -1) return 0;
+    if (c == -2) return 1;
+    if (g_ncodes >= 256) throw vh::BadArgs("too many sized probe values in one sequence");
+    g_codes[g_ncodes] = c; return (unsigned char)g_ncodes++;
+}
+template <int N, bool NX, int A, bool THROW> struct SP {
+    alignas(A) unsigned char b[N];
+    void fill(unsigned char h) { for (int j = 0; j < N; ++j) b[j] = (unsigned char)(h + 37 * j); }
+    SP() { fill(1); ++Probe::live; }
+    explicit SP(long c) { fill(new_handle(c)); ++Probe::live; }
+    SP(const SP& o) {
+        if (THROW) { if (Thrower::fuse == 0) { Thrower::fuse = -1; throw ThrowerError(); } if (Thrower::fuse > 0) --Thrower::fuse; }
+        for (int j = 0; j < N; ++j) b[j] = o.b[j];
+        ++Probe::live; ++Probe::copies;
+    }
+    SP(SP&& o) noexcept(NX) { for (int j = 0; j < N; ++j) b[j] = o.b[j]; o.fill(0); ++Probe::live; ++Probe::moves; }
+    SP& operator=(const SP& o) noexcept { for (int j = 0; j < N; ++j) b[j] = o.b[j]; return *this; }
+    ~SP() { --Probe::live; }
+    std::string code() const {
+        for (int j = 1; j < N; ++j) if (b[j] != (unsigned char)(b[0] + 37 * j)) return "?pat";
+        return b[0] < g_ncodes ? std::to_string(g_codes[b[0]]) : "?handle";
+    }
+};
+static_assert(sizeof(SP<1, true, 1, false>) == 1 && sizeof(SP<17, false, 1, true>) == 17 && sizeof(SP<64, true, 1, false>) == 64, "sized probes have exactly N bytes");
+static_assert(std::is_nothrow_move_constructible<SP<24, true, 1, false> >::value && !std::is_nothrow_move_constructible<SP<24, false, 1, false> >::value, "noexcept(NX)");
+static_assert(alignof(SP<32, true, 16, false>) == 16, "over-aligned member");
+
+// members of the family: X(id, N, NX, A)
+#define SIZED_FAMILY(X) \
+    X(1n, 1, true, 1) X(1x, 1, false, 1) X(4n, 4, true, 1) X(8n, 8, true, 1) X(8x, 8, false, 1) X(9n, 9, true, 1) \
+    X(16n, 16, true, 1) X(16x, 16, false, 1) X(17n, 17, true, 1) X(17x, 17, false, 1) X(24n, 24, true, 1) X(24x, 24, false, 1) \
+    X(25n, 25, true, 1) X(25x, 25, false, 1) X(32n, 32, true, 1) X(32x, 32, false, 1) X(33n, 33, true, 1) X(33x, 33, false, 1) \
+    X(40n, 40, true, 1) X(48n, 48, true, 1) X(48x, 48, false, 1) X(56n, 56, true, 1) X(56x, 56, false, 1) X(57n, 57, true, 1) \
+    X(64n, 64, true, 1) X(64x, 64, false, 1) X(a16n, 16, true, 16) X(a32x, 32, false, 16) X(w24n, 24, true, 8) X(w24x, 24, false, 8)
 
 // ---- values of the held types named by an integer code
 static const char* const kPrefix = "bfl-any-payload-long-enough-to-defeat-the-small-string-optimisation#";
@@ -111,16 +168,10 @@ template <> struct V<Thrower> {
     static std::string code(const Thrower& v) { return std::to_string(v.id); }
 };
 
-static char type_char(const std::type_info& t) {
-    if (t == typeid(void)) return 'v';
-    if (t == typeid(int)) return 'i';
-    if (t == typeid(double)) return 'd';
-    if (t == typeid(std::string)) return 's';
-    if (t == typeid(Eigen::MatrixXd)) return 'm';
-    if (t == typeid(Probe)) return 'p';
-    if (t == typeid(Thrower)) return 't';
-    return '?';
-}
+template <int N, bool NX, int A, bool THROW> struct V<SP<N, NX, A, THROW> > {
+    static SP<N, NX, A, THROW> mk(long c) { return SP<N, NX, A, THROW>(c); }
+    static std::string code(const SP<N, NX, A, THROW>& v) { return v.code(); }
+};
 
 enum Cat { LREF, CLREF, RREF, CRREF };
 static Cat cat_of(const std::string& s) {
@@ -135,24 +186,36 @@ static long g_n = 0;
 static bool is_live(long k) { return k >= 0 && k < g_n && pool[k] != nullptr; }
 static bool is_free(long k) { return k >= 0 && k < g_n && pool[k] == nullptr; }
 
+// ---- a pool object: storage from `operator new` obtained before, the constructor of `any` run inside the window
+// (what the new-expression `new any(args)` does, with the two steps separated so that only allocations made by any.h
+// itself can be made to fail); destroyed with `delete`
+struct AnyMem {
+    void* mem;
+    AnyMem() : mem(::operator new(sizeof(any))) { g_window = true; }
+    any* done(any* p) { g_window = false; mem = nullptr; return p; }
+    ~AnyMem() { g_window = false; if (mem) ::operator delete(mem); }
+};
+#define NEW_ANY(k, ...) do { AnyMem am_; pool[k] = am_.done(new (am_.mem) any(__VA_ARGS__)); } while (0)
+#define IN_ANY_H(stmt) do { g_window = true; stmt; g_window = false; } while (0)
+
 // ---- construction / assignment from a value, by argument category
 template <class T> static std::string ctor_val(long k, Cat c, long code) {
     T v = V<T>::mk(code);
     switch (c) {
-        case LREF: pool[k] = new any(v); break;
-        case CLREF: pool[k] = new any(static_cast<const T&>(v)); break;
-        case RREF: pool[k] = new any(std::move(v)); break;
-        case CRREF: pool[k] = new any(static_cast<const T&&>(v)); break;
+        case LREF: NEW_ANY(k, v); break;
+        case CLREF: NEW_ANY(k, static_cast<const T&>(v)); break;
+        case RREF: NEW_ANY(k, std::move(v)); break;
+        case CRREF: NEW_ANY(k, static_cast<const T&&>(v)); break;
     }
     return "src=" + V<T>::code(v);
 }
 template <class T> static std::string asgn_val(long a, Cat c, long code) {
     T v = V<T>::mk(code);
     switch (c) {
-        case LREF: *pool[a] = v; break;
-        case CLREF: *pool[a] = static_cast<const T&>(v); break;
-        case RREF: *pool[a] = std::move(v); break;
-        case CRREF: *pool[a] = static_cast<const T&&>(v); break;
+        case LREF: IN_ANY_H(*pool[a] = v); break;
+        case CLREF: IN_ANY_H(*pool[a] = static_cast<const T&>(v)); break;
+        case RREF: IN_ANY_H(*pool[a] = std::move(v)); break;
+        case CRREF: IN_ANY_H(*pool[a] = static_cast<const T&&>(v)); break;
     }
     return "src=" + V<T>::code(v);
 }
@@ -168,13 +231,14 @@ template <class T> static std::string poke_ref(long a, long code) {
 template <class T> static std::string cast_val(long a, char form) {
     try {
         switch (form) {
-            case 'l': { T x = any_cast<T>(*pool[a]); return "r=" + V<T>::code(x); }
-            case 'c': { T x = any_cast<T>(static_cast<const any&>(*pool[a])); return "r=" + V<T>::code(x); }
-            case 'r': { T x = any_cast<T>(std::move(*pool[a])); return "r=" + V<T>::code(x); }
-            case 'm': { T x = any_cast<T&&>(std::move(*pool[a])); return "r=" + V<T>::code(x); }
+            case 'l': { g_window = true; T x = any_cast<T>(*pool[a]); g_window = false; return "r=" + V<T>::code(x); }
+            case 'c': { g_window = true; T x = any_cast<T>(static_cast<const any&>(*pool[a])); g_window = false; return "r=" + V<T>::code(x); }
+            case 'r': { g_window = true; T x = any_cast<T>(std::move(*pool[a])); g_window = false; return "r=" + V<T>::code(x); }
+            case 'm': { g_window = true; T x = any_cast<T&&>(std::move(*pool[a])); g_window = false; return "r=" + V<T>::code(x); }
             default: throw vh::BadArgs("form");
         }
     } catch (const bad_any_cast& e) {
+        g_window = false;
         const std::bad_cast& base = e; (void)base;      // bad_any_cast is a std::bad_cast; its what() text is not promised
         return "r=x";
     }
@@ -202,7 +266,8 @@ template <class T> static int fp(any& a) {
 static int foreign_hits(any& a) {
     return fp<unsigned>(a) + fp<float>(a) + fp<long>(a) + fp<unsigned long>(a) + fp<char>(a) + fp<bool>(a) + fp<Other8>(a)
          + fp<const char*>(a) + fp<std::vector<double> >(a) + fp<Eigen::VectorXd>(a) + fp<Eigen::Matrix2d>(a) + fp<Eigen::MatrixXf>(a)
-         + fp<Probe*>(a) + fp<std::string*>(a) + fp<any>(a) + fp<any*>(a);
+         + fp<Probe*>(a) + fp<std::string*>(a) + fp<any>(a) + fp<any*>(a)
+         + fp<SP<5, true, 1, false> >(a) + fp<SP<23, false, 1, true> >(a) + fp<SP<8, true, 4, false> >(a);     // sized probes that are never stored
 }
 static int foreign_value_hits(const any& a) {
     int n = 0;
@@ -210,26 +275,54 @@ static int foreign_value_hits(const any& a) {
     try { (void)any_cast<const Eigen::VectorXd&>(a); ++n; } catch (const bad_any_cast&) {}
     return n;
 }
+// ---- per held type: the operations of the harness as a table of functions, so that the probe types behind the
+// tags p and t can be chosen per sequence without instantiating the interpreter once per type
+struct TypeOps {
+    const std::type_info* ti;
+    std::string (*ctor_val)(long, Cat, long);
+    std::string (*asgn_val)(long, Cat, long);
+    std::string (*poke)(long, long);
+    std::string (*poke_ref)(long, long);
+    std::string (*cast_val)(long, char);
+    std::string (*cast_ptr)(any*, bool);
+    std::string (*vp)(any&);
+    std::string (*vcp)(const any&);
+    std::string (*vr)(const any&);
+    int (*fp)(any&);
+};
+template <class T> static const TypeOps* ops_of() {
+    static const TypeOps o = { &typeid(T), &ctor_val<T>, &asgn_val<T>, &poke<T>, &poke_ref<T>, &cast_val<T>, &cast_ptr<T>, &vp<T>, &vcp<T>, &vr<T>, &fp<T> };
+    return &o;
+}
+static const TypeOps* g_ops[6];          // i d s m p t
+static bool g_sized = false;
+static const char kTagChars[] = "idsmpt";
+static const TypeOps* ops_for(const std::string& tag) {
+    if (tag.size() == 1) for (int j = 0; j < 6; ++j) if (tag[0] == kTagChars[j]) return g_ops[j];
+    throw vh::BadArgs("tag");
+}
+static char type_char(const std::type_info& t) {
+    if (t == typeid(void)) return 'v';
+    for (int j = 0; j < 6; ++j) if (t == *g_ops[j]->ti) return kTagChars[j];
+    return '?';
+}
 static std::string slot_view(long k) {
     if (!pool[k]) return "D";
     any& a = *pool[k];
     std::string s;
     s += a.has_value() ? '1' : '0';
     s += type_char(a.type());
-    s += ':'; s += vp<int>(a) + "," + vp<double>(a) + "," + vp<std::string>(a) + "," + vp<Eigen::MatrixXd>(a) + "," + vp<Probe>(a) + "," + vp<Thrower>(a);
-    s += ':'; s += vcp<int>(a) + "," + vcp<double>(a) + "," + vcp<std::string>(a) + "," + vcp<Eigen::MatrixXd>(a) + "," + vcp<Probe>(a) + "," + vcp<Thrower>(a);
-    s += ':'; s += vr<int>(a) + "," + vr<double>(a) + "," + vr<std::string>(a) + "," + vr<Eigen::MatrixXd>(a) + "," + vr<Probe>(a) + "," + vr<Thrower>(a);
+    s += ':'; for (int j = 0; j < 6; ++j) { if (j) s += ','; s += g_ops[j]->vp(a); }
+    s += ':'; for (int j = 0; j < 6; ++j) { if (j) s += ','; s += g_ops[j]->vcp(a); }
+    s += ':'; for (int j = 0; j < 6; ++j) { if (j) s += ','; s += g_ops[j]->vr(a); }
     int fh = foreign_hits(a) + foreign_value_hits(a);
+    if (g_sized) fh += fp<Probe>(a) + fp<Thrower>(a);      // the plain probes are foreign when a sized member is in use
     if (fh) s += ":f" + std::to_string(fh);      // a cast to a type that was never stored succeeded
     return s;
 }
 static std::string counters() {
     return "c=" + std::to_string(Probe::live) + "/" + std::to_string(Probe::copies) + "/" + std::to_string(Probe::moves);
 }
-
-#define BY_TAG(tag, CALL)                                              \
-    ((tag) == "i" ? CALL(int) : (tag) == "d" ? CALL(double) : (tag) == "s" ? CALL(std::string) \
-     : (tag) == "m" ? CALL(Eigen::MatrixXd) : (tag) == "p" ? CALL(Probe) : (tag) == "t" ? CALL(Thrower) : throw vh::BadArgs("tag"))
 
 static std::vector<std::string> split(const std::string& s) {
     std::vector<std::string> r; std::string cur;
@@ -243,43 +336,39 @@ static std::string exec_op(const std::string& tok) {
     const std::string& op = f[0];
     if (op == "df" && f.size() == 2) {
         long k = num(f[1]); if (!is_free(k)) return "inv";
-        pool[k] = new any(); return "ok";
+        NEW_ANY(k, ); return "ok";
     }
     if (op == "ca" && f.size() == 4) {
         long k = num(f[1]), s = num(f[2]); Cat c = cat_of(f[3]);
         if (!is_free(k) || !is_live(s)) return "inv";
         switch (c) {
-            case LREF: pool[k] = new any(*pool[s]); break;
-            case CLREF: pool[k] = new any(static_cast<const any&>(*pool[s])); break;
-            case RREF: pool[k] = new any(std::move(*pool[s])); break;
-            case CRREF: pool[k] = new any(static_cast<const any&&>(*pool[s])); break;
+            case LREF: NEW_ANY(k, *pool[s]); break;
+            case CLREF: NEW_ANY(k, static_cast<const any&>(*pool[s])); break;
+            case RREF: NEW_ANY(k, std::move(*pool[s])); break;
+            case CRREF: NEW_ANY(k, static_cast<const any&&>(*pool[s])); break;
         }
         return "ok";
     }
     if (op == "cv" && f.size() == 5) {
         long k = num(f[1]); Cat c = cat_of(f[2]); long code = num(f[4]);
         if (!is_free(k)) return "inv";
-#define CALL(T) ctor_val<T>(k, c, code)
-        return BY_TAG(f[3], CALL);
-#undef CALL
+        return ops_for(f[3])->ctor_val(k, c, code);
     }
     if (op == "aa" && f.size() == 4) {
         long a = num(f[1]), b = num(f[2]); Cat c = cat_of(f[3]);
         if (!is_live(a) || !is_live(b)) return "inv";
         switch (c) {
-            case LREF: *pool[a] = *pool[b]; break;
-            case CLREF: *pool[a] = static_cast<const any&>(*pool[b]); break;
-            case RREF: *pool[a] = std::move(*pool[b]); break;
-            case CRREF: *pool[a] = static_cast<const any&&>(*pool[b]); break;
+            case LREF: IN_ANY_H(*pool[a] = *pool[b]); break;
+            case CLREF: IN_ANY_H(*pool[a] = static_cast<const any&>(*pool[b])); break;
+            case RREF: IN_ANY_H(*pool[a] = std::move(*pool[b])); break;
+            case CRREF: IN_ANY_H(*pool[a] = static_cast<const any&&>(*pool[b])); break;
         }
         return "ok";
     }
     if (op == "av" && f.size() == 5) {
         long a = num(f[1]); Cat c = cat_of(f[2]); long code = num(f[4]);
         if (!is_live(a)) return "inv";
-#define CALL(T) asgn_val<T>(a, c, code)
-        return BY_TAG(f[3], CALL);
-#undef CALL
+        return ops_for(f[3])->asgn_val(a, c, code);
     }
     if (op == "rs" && f.size() == 2) {
         long a = num(f[1]); if (!is_live(a)) return "inv";
@@ -297,29 +386,21 @@ static std::string exec_op(const std::string& tok) {
     }
     if (op == "pk" && f.size() == 4) {
         long a = num(f[1]); long code = num(f[3]); if (!is_live(a)) return "inv";
-#define CALL(T) poke<T>(a, code)
-        return BY_TAG(f[2], CALL);
-#undef CALL
+        return ops_for(f[2])->poke(a, code);
     }
     if (op == "pr" && f.size() == 4) {
         long a = num(f[1]); long code = num(f[3]); if (!is_live(a)) return "inv";
-#define CALL(T) poke_ref<T>(a, code)
-        return BY_TAG(f[2], CALL);
-#undef CALL
+        return ops_for(f[2])->poke_ref(a, code);
     }
     if (op == "vc" && f.size() == 4) {
         long a = num(f[1]); if (f[3].size() != 1) throw vh::BadArgs("form"); char form = f[3][0];
         if (!is_live(a)) return "inv";
-#define CALL(T) cast_val<T>(a, form)
-        return BY_TAG(f[2], CALL);
-#undef CALL
+        return ops_for(f[2])->cast_val(a, form);
     }
     if (op == "pc" && f.size() == 4) {
         bool cst = num(f[3]) != 0; any* operand = nullptr;
         if (f[1] != "n") { long a = num(f[1]); if (!is_live(a)) return "inv"; operand = pool[a]; }
-#define CALL(T) cast_ptr<T>(operand, cst)
-        return BY_TAG(f[2], CALL);
-#undef CALL
+        return ops_for(f[2])->cast_ptr(operand, cst);
     }
     throw vh::BadArgs("op");
 }
@@ -328,20 +409,25 @@ static void destroy_all() {
     for (long k = 0; k < MAXN; ++k) if (pool[k]) { delete pool[k]; pool[k] = nullptr; }
 }
 
-static std::string anyseq(Toks& t) {
-    long n = t.nat(); if (n > MAXN) throw vh::BadArgs("n");
-    std::string mode = t.tok(); if (mode != "F" && mode != "L") throw vh::BadArgs("mode");
-    bool full = mode == "F";
+static std::string anyseq_run(Toks& t, long n, bool full) {
     std::string out; out.reserve(4096);
     g_n = n;
-    Probe::live = Probe::copies = Probe::moves = 0; Thrower::fuse = -1;
+    Probe::live = Probe::copies = Probe::moves = 0; Thrower::fuse = -1; reset_codes(); g_window = false; g_new_fuse = -1;
     const long n0 = g_live_allocs;
     try {
         bool first = true;
         while (!t.empty()) {
             std::string tok = t.tok();
             std::string r;
-            if (!tok.empty() && tok[0] == '!') {
+            g_window = false; g_new_fuse = -1;
+            if (!tok.empty() && tok[0] == '~') {
+                // the first (`~`) / second (`~~`) call of operator new made by any.h inside this operation throws std::bad_alloc
+                std::size_t skip = (tok.size() > 1 && tok[1] == '~') ? 2 : 1;
+                g_new_fuse = (long)skip - 1;
+                try { r = exec_op(tok.substr(skip)); }
+                catch (const std::bad_alloc&) { r = "threw"; }
+                g_new_fuse = -1; g_window = false;
+            } else if (!tok.empty() && tok[0] == '!') {
                 // the copy constructor of the throwing probe is armed for this operation only
                 Thrower::fuse = 0;
                 try { r = exec_op(tok.substr(1)); }
@@ -356,9 +442,28 @@ static std::string anyseq(Toks& t) {
         destroy_all();
         if (!first) out += ' ';
         out += "END "; out += counters();
-    } catch (...) { destroy_all(); throw; }
+    } catch (...) { g_window = false; g_new_fuse = -1; destroy_all(); throw; }
     out += " leak=" + std::to_string(g_live_allocs - n0);
     return out;
+}
+
+static std::string anyseq(Toks& t) {
+    long n = t.nat(); if (n > MAXN) throw vh::BadArgs("n");
+    std::string mode = t.tok();
+    if (mode.empty() || (mode[0] != 'F' && mode[0] != 'L')) throw vh::BadArgs("mode");
+    bool full = mode[0] == 'F';
+    g_ops[0] = ops_of<int>(); g_ops[1] = ops_of<double>(); g_ops[2] = ops_of<std::string>(); g_ops[3] = ops_of<Eigen::MatrixXd>();
+    g_ops[4] = ops_of<Probe>(); g_ops[5] = ops_of<Thrower>(); g_sized = false;
+    if (mode.size() > 1) {
+        if (mode.size() < 3 || mode[1] != ':') throw vh::BadArgs("mode");
+        std::string id = mode.substr(2);
+        g_sized = true; g_ops[4] = nullptr;
+#define X(ID, N, NX, A) if (id == #ID) { g_ops[4] = ops_of<SP<N, NX, A, false> >(); g_ops[5] = ops_of<SP<N, NX, A, true> >(); }
+        SIZED_FAMILY(X)
+#undef X
+        if (!g_ops[4]) throw vh::BadArgs("probe family member");
+    }
+    return anyseq_run(t, n, full);
 }
 
 int main() {
